@@ -3,6 +3,10 @@ CONSTANTS
   Gen <- MCGen
   HelperPath = "codable"
   Fails <- MCFails
+  Extends <- MCExtends
+  Compare = "equal"
+  MaxDistinct = 9
+  MaxAfterTouch = 9
   EagerWrite = FALSE
   HelperBug = TRUE
   MaxRuns = 4
